@@ -233,7 +233,10 @@ def set_run_key(model, info, art):
     g = set_run_key_wrapper(one(), k_inner)
     if depth == 2:
         g = set_run_key_wrapper(g, "outer")
-    got = g.send(None)
+    try:
+        got = g.send(None)
+    except Exception as e:      # noqa: BLE001
+        return "confirmed", f"message key {k_own!r}, wrapper key {k_inner!r}, depth {depth}: the wrapped plan raised {e!r} instead of yielding the message"
     want = k_own if own != "none" else k_inner
     same = got.run is want or (type(got.run) is type(want) and not isinstance(want, Key) and got.run == want)
     fields = got.command == "read" and got.obj is dev and got.args == (1,) and got.kwargs == {"k": 2}
@@ -442,3 +445,50 @@ def checkpoint_all(model, info, art):
     if state["cache"] != 0:
         stale.append(f"message cache afterwards: {state['cache']}")
     return ("confirmed" if stale else "contradicted"), f"{h[1:]}(run={key!r}) with runs {OPEN} open, each one event past its snapshot: " + ("; ".join(stale) or "every open run's snapshot refreshed")
+
+
+def baseline(model, info, art):
+    """baseline_wrapper over two interleaved keyed runs on a real RunEngine: every message between the plan's own messages (seen through
+    msg_hook) must carry the key of the run whose open_run / close_run triggered the baseline readings"""
+    from bluesky.preprocessors import baseline_wrapper
+    kinds = info["kinds"]
+    keys = [None if k == "none" else _key(model, k, f"key{i}") for i, k in enumerate(kinds)]
+    if keys[0] is not None and keys[1] is not None and type(keys[0]) is type(keys[1]) and not isinstance(keys[0], Key) and keys[0] == keys[1]:
+        return "not-constructible", f"equal keys {keys!r}"
+    det = Det("bdet")
+    user = [Msg("open_run", run=keys[0]), Msg("open_run", run=keys[1]), Msg("checkpoint"), Msg("close_run", run=keys[0]), Msg("close_run", run=keys[1])]
+    seen = []
+    RE = RunEngine(context_managers=[])
+    RE.msg_hook = seen.append
+    docs = []
+    RE.subscribe(lambda n, d: docs.append((n, d)))
+
+    def plan():
+        for m in user:
+            yield m
+    try:
+        RE(baseline_wrapper(plan(), [det]))
+    except Exception as e:      # noqa: BLE001
+        return "confirmed", f"keys {keys!r}: the wrapped plan failed with {e!r} after messages {[(m.command, m.run) for m in seen]}"
+    owner = {0: 0, 1: 1, 2: 0, 3: 1}          # segment after user[i] (before user[i + 1]) belongs to run ...
+    problems, seg = [], None
+    for m in seen:
+        hit = [i for i, u in enumerate(user) if m is u]
+        if hit:
+            seg = hit[0]
+            continue
+        if seg is None or seg not in owner:
+            problems.append(f"unexpected message {m.command} outside the runs")
+            continue
+        k = keys[owner[seg]]
+        if not (m.run is k or (k is not None and not isinstance(k, Key) and type(m.run) is type(k) and m.run == k)):
+            problems.append(f"{m.command} inserted for the run with key {k!r} carries run={m.run!r}")
+    if [m for m in seen if any(m is u for u in user)] != user:
+        problems.append("the plan's own messages did not pass unchanged")
+    starts = [d["uid"] for n, d in docs if n == "start"]
+    desc = {d["uid"]: d["run_start"] for n, d in docs if n == "descriptor" and d["name"] == "baseline"}
+    for i, u in enumerate(starts):
+        nb = len([1 for n, d in docs if n == "event" and desc.get(d["descriptor"]) == u])
+        if nb != 2:
+            problems.append(f"run #{i + 1} has {nb} baseline events, expected 2")
+    return ("confirmed" if problems else "contradicted"), f"keys {keys!r}: " + ("; ".join(problems[:6]) or "every inserted message carries the key of its run")
